@@ -227,6 +227,10 @@ func (s *ChunkStorage[T]) VerifyRemoteChunk(c Chunk[T]) (*warp.BitSetSignature, 
 
 	chunkCertInfo, ok := s.pendingChunkMap[c.id]
 	if ok {
+		if chunkCertInfo.Cert == nil {
+			// the chunk is pending, but its certificate has not arrived yet
+			return nil, nil
+		}
 		return chunkCertInfo.Cert.Signature, nil
 	}
 	if err := s.verifier.Verify(c); err != nil {
